@@ -71,13 +71,21 @@ func VerifC11Poses() {
 	}
 	lastSeen := map[uint32]float32{e1: 0, e2: 0}
 	delSeen := map[uint32]bool{}
+	var extra []uint32
+	var extraPx []float32
 	observe := func() {
 		for _, m := range obs.drain() {
 			switch typeNum(m) {
 			case 15:
 				var b hagallpb.EntityUpdatePoseBroadcast
 				m.DataTo(&b)
-				verifnd.Assert(b.EntityId == e1 || b.EntityId == e2, "C11.only_own_existing_entities_relayed")
+				if b.EntityId != e1 && b.EntityId != e2 {
+					// an id the solver chose: legitimate only if it is the entity the owner created meanwhile
+					extra = append(extra, b.EntityId)
+					if b.Pose != nil {
+						extraPx = append(extraPx, b.Pose.Px)
+					}
+				}
 				if b.EntityId == e1 || b.EntityId == e2 {
 					verifnd.Assert(b.Pose != nil, "C11.relay_carries_pose")
 					if b.Pose != nil {
@@ -132,6 +140,11 @@ func VerifC11Poses() {
 			if !deleted[e2] {
 				own.dispatch(&hagallpb.EntityDeleteRequest{Type: hagallpb.MsgType_MSG_TYPE_ENTITY_DELETE_REQUEST, Timestamp: vts(), RequestId: 3, EntityId: e2})
 				deleted[e2] = true
+				if verifnd.Bool() {
+					// ... and creates a new entity right away: whatever id it gets, updates still pending for the
+					// deleted one must not reach it
+					own.dispatch(&hagallpb.EntityAddRequest{Type: hagallpb.MsgType_MSG_TYPE_ENTITY_ADD_REQUEST, Timestamp: vts(), RequestId: 4, Pose: &hagallpb.Pose{Px: -7}})
+				}
 			}
 		}
 		observe()
@@ -157,6 +170,10 @@ func VerifC11Poses() {
 		if j >= 0 {
 			verifnd.Assert(handed.ents[j].pose[0] == latest[e], "C11.latest_pose_handed_to_newcomer")
 		}
+	}
+	for _, id := range extra {
+		k := handed.entIdx(id)
+		verifnd.Assert(k >= 0 && handed.ents[k].owner == own.pid, "C11.only_own_existing_entities_relayed")
 	}
 	j := handed.entIdx(ef)
 	verifnd.Assert(j >= 0 && handed.ents[j].pose[0] == 0, "C11.foreign_update_has_no_effect")
